@@ -32,9 +32,10 @@ func (m MC) sem() oracle.Constr {
 }
 
 type Case struct {
-	Kind    string `json:"kind"`            // api | wcnf
-	NVars   int    `json:"nvars,omitempty"` // wcnf: declared variables
-	Top     int    `json:"top,omitempty"`   // wcnf: top weight (0 = none)
+	Kind    string `json:"kind"`               // api | wcnf
+	NVars   int    `json:"nvars,omitempty"`    // wcnf: declared variables
+	Top     int    `json:"top,omitempty"`      // wcnf: top weight (0 = none)
+	OverTop bool   `json:"over_top,omitempty"` // wcnf: some hard clauses are written with a weight above top
 	Constrs []MC   `json:"constrs"`
 }
 
@@ -228,7 +229,8 @@ func checkWCNF(c Case, o *vf.Obs) error {
 		}
 	}
 	o.ClassIf(mv < c.NVars, "unused-declared-var")
-	txt := texts.WCNF(c.NVars, c.Top, wcs, texts.WCNFLayout{})
+	o.ClassIf(c.OverTop, "hard-weights-above-top")
+	txt := texts.WCNF(c.NVars, c.Top, wcs, texts.WCNFLayout{OverTop: c.OverTop})
 	validate := func(what string, r solver.Result) error {
 		if !feasible {
 			if r.Status != solver.Unsat {
@@ -456,6 +458,7 @@ func genWCNF(t *rapid.T) Case {
 	sum += addGadgets(t, &c, used)
 	if withTop {
 		c.Top = sum + 1 + rapid.IntRange(0, 3).Draw(t, "topSlack")
+		c.OverTop = gen.Chance(t, 1, 3, "overTop")
 	}
 	return c
 }
